@@ -1005,7 +1005,9 @@ type SyncArgs struct {
 // StartSynchronize starts a Synchronize() call of worker d.
 func (w *World) StartSynchronize(d *WorkerDef, s SyncArgs) *Actor {
 	act := w.newActor("sync", d.Label)
-	d.call = act
+	if d.call == nil {
+		d.call = act // otherwise: a duplicate of a call that is still in progress
+	}
 	req := &remoteworker.SynchronizeRequest{
 		WorkerId:           d.ID,
 		InstanceNamePrefix: d.Prefix,
